@@ -275,6 +275,33 @@ def _is_plus_one(hy, ly):
     return False
 
 
+def _project(t, depth=0):
+    """resolve projections out of values built in sight: `.k` of a tuple / struct literal, and the success value of `expr?` where expr is (a phi
+    containing) a literal `Ok(v)` — so that the two dates a helper returns as `Ok((start, end))?` are told apart"""
+    if not (isinstance(t, tuple) and t) or depth > 12:
+        return t
+    if t[0] == "field" and len(t) == 3:
+        x = _project(t[1], depth + 1)
+        if isinstance(x, tuple) and x:
+            if x[0] == "tuple" and str(t[2]).isdigit() and int(t[2]) < len(x[1]):
+                return _project(x[1][int(t[2])], depth + 1)
+            if x[0] == "agg" and len(x) > 3:
+                for k, v in x[3]:
+                    if k == t[2]:
+                        return _project(v, depth + 1)
+            if x[0] == "dc" and x[2] == "Continue" and t[2] == "0" and isinstance(x[1], tuple) and x[1] and x[1][0] == "call" and x[1][1].endswith("Try>::branch") and x[1][2]:
+                src = _project(x[1][2][0], depth + 1)
+                alts = src[1] if isinstance(src, tuple) and src and src[0] == "phi" else (src,)
+                oks = [a for a in alts if isinstance(a, tuple) and a and a[0] == "agg" and a[1].endswith("result::Result") and a[2] == "Ok"]
+                if len(oks) == 1:
+                    for k, v in oks[0][3]:
+                        if k == "0":
+                            return _project(v, depth + 1)
+        if x is not t[1]:
+            return ("field", x, t[2])
+    return t
+
+
 def _closure_date_cmps(F, b, tb):
     """closures created in b that compare a date with captured from_ymd_opt values (directly, through a helper that
     builds the date, or through a Range/RangeInclusive::contains) -> list of (op, year_term, M, D) as `date op bound`"""
@@ -287,7 +314,7 @@ def _closure_date_cmps(F, b, tb):
         cb = F.bodies.get(rv["id"])
         if cb is None:
             continue
-        caps = [tbi.operand(o) for o in rv["ops"]]
+        caps = [_project(tbi.operand(o)) for o in rv["ops"]]
         if not any(_ymd_consts(c) for c in caps):
             continue
         ct = Terms(F, cb, inline_depth=0)
